@@ -208,7 +208,8 @@ class FormattedTask(T.Task):
 
 def variants(rnd, text):
     ws = [" ", "\t", "\n", "\xa0", " ", "\r\n", "  "]
-    out = []
+    # the pure forms first: case only (no whitespace at all), whitespace only (case untouched), one leading blank
+    out = [text.lower(), text.swapcase(), " ".join(text), text + "\n", "\xa0" + text, text[:2] + "\u3000" + text[2:].lower()]
     for _ in range(4):
         s = ""
         for ch in text:
